@@ -58,6 +58,8 @@ BENIGN = {      # behaviour-preserving refactorings: the checks most exposed to 
     'b17_normal_raise_message_local': ['C05'], 'b18_must_early_return': ['C05', 'C01', 'C02', 'C09'], 'b19_limit_bytes_explicit_min': ['C18', 'C03'],
     'b20_ptree_handler_forwarding_match': ['C12', 'C08'], 'b21_stream_to_string_static_constant': ['C05'], 'b22_memory_input_ctor_delegates': ['C06', 'C19', 'C03'],
     'b23_ptree_unselected_handler_forwards_all': ['C12', 'C08'], 'b24_unescape_j_hoisted_end': ['C17'], 'b25_coverage_unwind_with_find': ['C08'], 'b26_string_compare_string_view': ['C09', 'C06', 'C03', 'C10'],
+    'b27_require_rearranged_overflow_test': ['C07', 'C03'], 'b28_node_has_content_boolean': ['C12'], 'b29_parse_error_accessors_substr': ['C05'], 'b30_seq_single_alias': ['C01', 'C13', 'C04', 'C02'],
+    'b31_restart_through_local_copy': ['C06', 'C19'], 'b32_discard_local_base': ['C06', 'C07'],
     'b09_string_early_returns': ['C09', 'C06', 'C03', 'C02'], 'b10_eol_reordered_conjuncts': ['C06', 'C09', 'C07', 'C03'],
 }
 if what in ('benign', 'benign-all', 'all'):
